@@ -164,3 +164,14 @@ Theorem C07_source_defaults : forall ttl da jz jit dis,
         Some (VF (if jz then FConst 3602879701896397 36028797018963968 else FSym "ExpirationJitter"))).
 Proof. exact tie_trait_defaults. Qed.
 Print Assumptions C07_source_defaults.
+
+(* Load and Store are Read and Write under the background context *)
+Theorem C07_source_load_store : forall read_ok,
+  (run_load fn_shardedMap_Load read_ok =
+     Some ([("Read(bgCtx, key)", [])], if read_ok then [VStr "value read"; VB true] else [VNil; VB false]) /\
+   run_load fn_shardedMapOf_Load read_ok =
+     Some ([("Read(bgCtx, key)", [])], if read_ok then [VStr "value read"; VB true] else [VZ 0; VB false])) /\
+  (run_store fn_shardedMap_Store = Some [("Write(bgCtx, key, val)", [VStr "value"])] /\
+   run_store fn_shardedMapOf_Store = Some [("Write(bgCtx, key, val)", [VStr "value"])]).
+Proof. intros; split; [exact (tie_load _)|exact tie_store]. Qed.
+Print Assumptions C07_source_load_store.
